@@ -957,11 +957,14 @@ def _get_constraints(constraints):
             if "fun" not in constraint or not callable(constraint["fun"]):
                 raise ValueError("The constraint function must be callable.")
             nonlinear_constraints.append(
-                {
-                    "fun": constraint["fun"],
-                    "type": constraint["type"],
-                    "args": constraint.get("args", ()),
-                }
+                NonlinearConstraint(
+                    _dict_constraint_function(
+                        constraint["fun"],
+                        constraint.get("args", ()),
+                    ),
+                    0.0,
+                    0.0 if constraint["type"] == "eq" else np.inf,
+                )
             )
         else:
             raise TypeError(
@@ -970,6 +973,15 @@ def _get_constraints(constraints):
                 "scipy.optimize.NonlinearConstraint, or dict."
             )
     return linear_constraints, nonlinear_constraints
+
+
+def _dict_constraint_function(fun, args):
+    """
+    Constraint function ``x -> fun(x, *args)`` of a dictionary constraint.
+    """
+    if not isinstance(args, tuple):
+        args = (args,)
+    return lambda x: fun(x, *args)
 
 
 def _set_default_options(options, n):
